@@ -74,12 +74,15 @@ func (h *replyHandler) HandleXMPP(t xmlstream.TokenReadEncoder, start *xml.Start
 	}
 	var out []string
 	if c.API == "reply/Encode" {
-		err := t.Encode(NewSliceReader(c.Src, false))
+		err := t.Encode(NewMidReader(c, c.Src, false, 1))
 		for range c.Src {
 			out = append(out, ErrClass(err))
 		}
 	} else {
-		for _, tok := range c.Src {
+		for i, tok := range c.Src {
+			if i == 1 && c.Mid {
+				TheGate.Hook(MidPoint)
+			}
 			out = append(out, ErrClass(t.EncodeToken(tok.XML())))
 		}
 	}
@@ -215,6 +218,7 @@ func (sc *Scenario) Run() *Outcome {
 				base[p] = TheGate.Arrived(p)
 			}
 			park := sc.Park
+			sc.Calls[0].Mid = park == MidPoint
 			TheGate.Block(park)
 			start(0)
 			if TheGate.WaitParked(park, 1, 5*time.Second) {
@@ -309,6 +313,9 @@ func (o *Outcome) checkFlushed(sc *Scenario) {
 		}
 	}
 }
+
+// AllOk reports whether every result of a call is ROk.
+func AllOk(rs []string) bool { return allOk(rs) }
 
 func allOk(rs []string) bool {
 	for _, r := range rs {
